@@ -3,12 +3,17 @@ import json, os
 import lib
 
 PROP = "C10"
+# one request kind per service that is answered with exactly one datagram when the limiter allows it
+KINDS1 = {"counterstrike": "info", "snmp": "get", "tftp": "rrq", "memcached": "stats"}
 
 
 def design(ck, tier):
     r = lib.tlc("MC_LimiterDesign", timeout=600, constants={"DMaxT": "3" if tier == "quick" else "5"})
     lib.tlc_must_pass(r, "Limiter design (AtMostBurstPerWindow, SourcesIndependent, RepliesPaidFor)")
     ck.add_tlc(r, "Limiter exhaustive: 2 services x 2 ips, Burst 2, Q 2, with Advance")
+    rd = lib.tlc("MC_LimiterDesign", timeout=300, constants={"DMaxT": "2", "Devs": '{"racy_first_use"}'}, want_scn=False)
+    if rd.violated is None:
+        raise lib.Infra("regression racy_first_use does not violate AtMostBurstPerWindow / RepliesPaidFor in the model")
 
 
 def unbounded(ck, tier):
@@ -164,6 +169,41 @@ def run(tier, lab):
         nsteps += len(res["obs"])
         distinct.add(json.dumps([(o["svc"], o["ip"], o["kind"]) for o in res["obs"]]))
         classify(ck, lab, res, expected.get(res["id"]), drift)
+    # concurrent first bursts: the server handles every datagram in its own goroutine, so the first datagrams of a source never
+    # seen before reach the limiter at the same time; the bucket is ONE per source whatever the interleaving (Limiter.tla has no
+    # per-request state, regression "racy_first_use")
+    conc = []
+    for k in range(2 if tier == "quick" else 12):
+        for svc in ("counterstrike", "snmp", "tftp", "memcached"):
+            # 400 sources never seen before, 8 datagrams each, all handed to the server at once (the window in which two first
+            # datagrams of one source can meet is a few microseconds: many sources make it likely that some pair does)
+            steps = [{"svc": svc, "ip": "10.%d.%d.%d" % (50 + len(conc), ipn // 200, 1 + ipn % 200), "port": 2000 + j, "kind": KINDS1[svc]}
+                     for ipn in range(400) for j in range(8)]
+            conc.append({"id": 100000 + len(conc), "concurrent": True, "steps": steps})
+        # and one source alone
+        conc.append({"id": 100000 + len(conc), "concurrent": True,
+                     "steps": [{"svc": "counterstrike", "ip": "10.49.%d.9" % k, "port": 1024 + j, "kind": "info"} for j in range(200)]})
+    cres = exec_scenarios(lab, conc, 0, 1)
+    nsrc = 0
+    for res in cres:
+        if res.get("error"):
+            raise lib.Infra("concurrent scenario %s: %s" % (res["id"], res["error"]))
+        per = {}
+        for o in res["obs"]:
+            per[o["ip"]] = per.get(o["ip"], 0) + o["rep"]
+        nsrc += len(per)
+        svc = res["obs"][0]["svc"]
+        over = {ip: n for ip, n in per.items() if n > 4}
+        if over:
+            ip, n = sorted(over.items(), key=lambda x: -x[1])[0]
+            ck.disagree("%s/amplification" % svc, "%d response datagrams to %s (and more than 4 to %d of %d sources) when every source's datagrams are "
+                        "handed to the server at once (limit 4)" % (n, ip, len(over), len(per)),
+                        {"scenario": {"id": res["id"], "concurrent": True, "steps": [o for o in res["obs"] if o["ip"] == ip]}, "replies": n})
+        under = [ip for ip, n in per.items() if n < 4]
+        if under:
+            drift.add("concurrent burst: %d of %d fresh %s sources got fewer than 4 replies" % (len(under), len(per), svc))
+    ck.cov["concurrent_first_burst_sources"] = nsrc
+    ck.cov["concurrent_first_bursts"] = len(cres)
     # code -> spec: every observed behaviour (TLC-generated and random bursts) must be a behaviour of Limiter
     todo = list(results)
     validated = 0
